@@ -197,6 +197,23 @@ pub fn tree_digest(t: &Tree) -> String {
     digest(&v)
 }
 
+/// Stands for one byte 0xFF in the text of a source file: scenario files are JSON, their
+/// strings cannot hold a sequence that is not UTF-8.
+pub const BAD_BYTE: char = '\u{F8FF}';
+
+fn encode_src(text: &str) -> Vec<u8> {
+    let mut out = Vec::with_capacity(text.len());
+    let mut buf = [0u8; 4];
+    for c in text.chars() {
+        if c == BAD_BYTE {
+            out.push(0xFF);
+        } else {
+            out.extend_from_slice(c.encode_utf8(&mut buf).as_bytes());
+        }
+    }
+    out
+}
+
 fn write_file(root: &str, rel: &str, data: &[u8]) {
     let p = Path::new(root).join(rel);
     if let Some(parent) = p.parent() {
@@ -386,6 +403,11 @@ pub fn mirrored(rel: &str, layout: &Layout) -> String {
 }
 
 pub fn reference(files: &[SrcFile], annotate: bool, refs: &mut RefCache, stats: &mut Stats) -> JobResult {
+    // a source that is not UTF-8 cannot be handed to the pure API at all: the only acceptable
+    // outcome of the project is an error
+    if files.iter().any(|f| f.text.contains(BAD_BYTE)) {
+        return JobResult { verdict: "err".into(), ..Default::default() };
+    }
     let p = Program { files: files.to_vec(), annotate, features: vec![], label: String::new(), path_mode: String::new() };
     let k = c12::program_key(&p);
     if !refs.map.contains_key(&k) {
@@ -481,7 +503,7 @@ impl HistExec {
                 }
                 std::fs::create_dir_all(&src).expect("src dir");
                 for f in files.iter().chain(bystanders.iter()) {
-                    write_file(&src, &f.path, f.text.as_bytes());
+                    write_file(&src, &f.path, &encode_src(&f.text));
                 }
                 let store = format!("{}/lnkstore", self.proj());
                 let _ = std::fs::remove_dir_all(&store);
@@ -808,7 +830,7 @@ impl HistExec {
                 step_viol.push(Viol::new("panic", step, format!("transpile_dir panicked: {}", res.panic_msg.lines().next().unwrap_or(""))));
             } else if !ref_abnormal {
                 if r.verdict != res.outcome {
-                    step_viol.push(Viol::new("verdict_differs_from_reference", step, format!("mamba_to_python says {} but transpile_dir returned {} {}", r.verdict, res.outcome, res.diags.first().map(|d| d.lines().next().unwrap_or("").to_string()).unwrap_or_default())));
+                    step_viol.push(Viol::new("verdict_differs_from_reference", step, format!("{} says {} but transpile_dir returned {} {}", if files.iter().any(|f| f.text.contains(BAD_BYTE)) { "a source that is not UTF-8" } else { "mamba_to_python" }, r.verdict, res.outcome, res.diags.first().map(|d| d.lines().next().unwrap_or("").to_string()).unwrap_or_default())));
                 } else if res.outcome == "ok" {
                     step_viol.extend(self.judge_ok(step, &before, &after, &files, &r, &out_rel));
                     let expect_path = format!("$ROOT/{out_rel}");
@@ -1166,7 +1188,10 @@ impl HistExec {
                 for k in &faulty_paths {
                     let kb = base(k);
                     let unique_base = all_paths.iter().filter(|p| base(p) == kb).count() == 1;
-                    let names_k = locs.iter().any(|l| named(l).as_deref() == Some(k.as_str()))
+                    // an undecodable source is reported by the reader, with the path it opened
+                    let by_reader = fys.iter().any(|f| f.line.contains(BAD_BYTE)) && res.diags.iter().any(|d| d.replace("/./", "/").contains(&format!("{src_last}/{k}")));
+                    let names_k = by_reader
+                        || locs.iter().any(|l| named(l).as_deref() == Some(k.as_str()))
                         || (unique_base && (locs.iter().any(|l| base(l) == kb) || res.diags.iter().any(|d| d.contains(&kb))));
                     if !names_k {
                         v.push(Viol::new(
